@@ -79,12 +79,15 @@ def ac_rec(gen, r):
 def zone_rec(gen, r):
     if gen == 4:
         return dict(number=r["number"], power=r["power"], method=r["method"], percent=r["percent"], low_battery=r["low_battery"],
-                    turbo_support=True, setpoint_raw=r["sp"], sensor=r["sensor"], temp_raw=r["temp_raw"] if r["sensor"] else None,
+                    turbo_support=True, setpoint_raw=r["sp"], sensor=r["sensor"],
+                    # "temp_na": the sensor is paired but reports no temperature (both protocols have a sentinel for it)
+                    temp_raw=r["temp_raw"] if (r["sensor"] and not r.get("temp_na")) else None,
                     spill=r["spill"])
     return dict(number=r["number"], power=r["power"], method=r["method"], percent=r["percent"],
                 # without a sensor the AT5 record either carries 0xFF or still carries a set-point byte ("sp_stale")
                 setpoint_raw=(r["sp"] * 10 - 100) if (r["sensor"] or r.get("sp_stale")) else None, sensor=r["sensor"],
-                temp_raw=r["temp_raw"] if r["sensor"] else None, spill=r["spill"], low_battery=r["low_battery"])
+                temp_raw=r["temp_raw"] if (r["sensor"] and not r.get("temp_na")) else None, spill=r["spill"],
+                low_battery=r["low_battery"])
 
 
 def _ac_common(n):
@@ -99,7 +102,8 @@ def _zone_common(n):
     return st.fixed_dictionaries({
         "number": st.just(n), "power": st.sampled_from(["off", "on", "turbo"]), "method": st.sampled_from(["damper", "temperature"]),
         "percent": st.integers(0, 100), "low_battery": st.booleans(), "sp": st.integers(10, 35), "sensor": st.booleans(),
-        "temp_raw": st.integers(0, 200).map(lambda v: v * 10), "spill": st.booleans(), "sp_stale": st.booleans()})
+        "temp_raw": st.integers(0, 200).map(lambda v: v * 10), "spill": st.booleans(), "sp_stale": st.booleans(),
+        "temp_na": st.sampled_from([False, False, True])})
 
 
 @st.composite
